@@ -992,6 +992,12 @@ struct Engine
                 s[x].m.arena = ax;
                 s[y].m.arena = ay;
             }
+            // swapping with an empty vector (default-constructed, capacity 0, emptied, moved-from) is a complete swap like any
+            // other: the allocators are exchanged under POCS (C08's rule, C18's business when an operand is empty)
+            if (s[x].m.e.empty() || s[y].m.e.empty())
+                for (int p : {x, y})
+                    if (std::as_const(*s[p].v).get_allocator().get_arena() != s[p].m.arena)
+                        viol("C08,C18", "allocator_identity_after_swap_with_empty_vector", fmt("v%d: get_allocator() is arena %d after the swap, expected %d (propagate_on_container_swap is %s)", p, std::as_const(*s[p].v).get_allocator().get_arena(), s[p].m.arena, K::POCS ? "true" : "false"));
             // exchange of ownership: addresses are exchanged exactly
             for (auto [p, q] : {std::pair{x, y}, std::pair{y, x}})
             {
